@@ -32,9 +32,7 @@
 
 namespace {
 
-const quint16 kBindingRequest = 0x0001;
 const quint16 kBindingResponse = 0x0101;
-const quint16 kBindingError = 0x0111;
 
 QJsonArray toJ(const QByteArray &b)
 {
@@ -368,12 +366,18 @@ struct Script {
         const QString cls = d["cls"].toString(), auth = d["auth"].toString(), tx = d["tx"].toString();
         QXmppStunMessage m;
         QByteArray key;
-        if (cls == "request") {
-            m.setType(kBindingRequest);
+        // STUN message type = method | class bits (RFC 5389 6): Binding, or Allocate for "another method"
+        const quint16 method = d["meth"].toString("binding") == "binding" ? 0x0001 : 0x0003;
+        const quint16 classBits = cls == "request" ? 0x0000 : cls == "indication" ? 0x0010 : cls == "response" ? 0x0100 : 0x0110;
+        m.setType(method | classBits);
+        if (cls == "request" || cls == "indication") {
+            // (an indication is given everything a connectivity check carries)
             const QByteArray id = rndBytes(ctx, 12);
             sentIds << id;
             m.setId(id);
-            m.setPriority(quint32((1 << 24) * 110 + (1 << 8) * 65535 + 255));
+            if (!d.contains("pr") || d["pr"].toBool()) {
+                m.setPriority(quint32((1 << 24) * 110 + (1 << 8) * 65535 + 255));
+            }
             m.setUsername(d["un"].toString() == "ok" ? conn->localUser() + ':' + peerUser : QStringLiteral("someone:else"));
             const QString ra = d["ra"].toString();
             if (ra == "controlling") {
@@ -384,7 +388,6 @@ struct Script {
             m.useCandidate = d["uc"].toBool();
             key = conn->localPassword().toUtf8();
         } else {
-            m.setType(cls == "response" ? kBindingResponse : kBindingError);
             if (tx == "fresh") {
                 m.setId(rndBytes(ctx, 12));
             } else if (openTx.contains(tx)) {
@@ -464,7 +467,9 @@ struct Script {
                 from.writeDatagram(bytes, lo, compPort);
                 quiet = settle(&from);
                 // a response consumes the transaction it answers (whatever the component made of it)
-                if (d["auth"].toString() == "valid" && d["cls"].toString() != "request" && d["tx"].toString() != "fresh") {
+                const QString dc = d["cls"].toString();
+                if (d["auth"].toString() == "valid" && (dc == "response" || dc == "error") && d["meth"].toString("binding") == "binding" &&
+                    d["tx"].toString() != "fresh") {
                     openTx.remove(d["tx"].toString());
                 }
             } else {
@@ -589,8 +594,9 @@ struct Nego {
         QXmppStunMessage m;
         const QString cls = f["cls"].toString();
         m.setId(rndBytes(ctx, 12));
-        if (cls == "request") {
-            m.setType(kBindingRequest);
+        if (cls == "request" || cls == "indication") {
+            const quint16 method = f["meth"].toString("binding") == "binding" ? 0x0001 : 0x0003;
+            m.setType(method | (cls == "request" ? 0x0000 : 0x0010));
             m.setPriority(quint32((1 << 24) * 110 + (1 << 8) * 65535 + 255));
             m.setUsername(target.conn->localUser() + ':' + other.conn->localUser());
             m.useCandidate = f["uc"].toBool();
